@@ -119,7 +119,7 @@ def run_poly(ctx, ops, n_hist, length, maxdim, observe_always=False, batch=10):
         nonempty_mut = False
         for l in lines:
             t = l.split()
-            if t[0] == "op":
+            if t[0] == "op" or t[0] == "res":
                 opc[t[2]] += 1
             elif t[0] == "q":
                 qc[t[2]] += 1
